@@ -1,5 +1,7 @@
 """C07 — instruction read/write annotations match machine semantics (RV32.tla Exec, X64.tla Reads / Writes; idioms M + G + E)."""
-from harness import asmgen
+import os
+
+from harness import asmgen, core
 from harness import armgen
 from harness import x64gen
 from harness import mipsgen
@@ -12,10 +14,21 @@ class Engine:
 
     def run(self, ctx):
         thorough = (ctx.only.get("tier", ctx.tier) if ctx.only else ctx.tier) == "thorough"
-        if armgen.c07_part(ctx, thorough): return  # thumb / arm (tla/Thumb.tla, tla/Arm32.tla); True: a replay of one of its cases
-        if x64gen.c07_part(ctx, thorough): return  # x86_64 (tla/X64.tla); True: a replay of one of its cases
-        if mipsgen.c07_part(ctx, thorough): return  # mips (tla/Mips.tla); True: a replay of one of its cases
-        if m68kgen.c07_part(ctx, thorough): return  # m68k (tla/M68k.tla); True: a replay of one of its cases
+        parts = [
+            ("arm", lambda c: armgen.c07_part(c, thorough)),      # thumb / arm (tla/Thumb.tla, tla/Arm32.tla)
+            ("x86_64", lambda c: x64gen.c07_part(c, thorough)),   # tla/X64.tla
+            ("mips", lambda c: mipsgen.c07_part(c, thorough)),    # tla/Mips.tla
+            ("m68k", lambda c: m68kgen.c07_part(c, thorough)),    # tla/M68k.tla
+            ("riscv", lambda c: self.riscv_part(c, thorough)),    # tla/RV32.tla (Exec)
+        ]
+        if ctx.only is not None:
+            for _, fn in parts:
+                if fn(ctx):
+                    return
+            return
+        core.run_parts(ctx, parts, jobs=int(os.environ.get("VERIF_JOBS", "8")))
+
+    def riscv_part(self, ctx, thorough):
         ctx.rule("every instruction class and macro-instruction class of ppci.arch.riscv (isa, rvcisa) x {register "
                  "sweeps (quick: x0 x1 x2 x8 x10 x15 x31), diagonal, in-range boundary immediates / "
                  "displacements from TLC}; ppci supplies the bytes and used_registers / defined_registers / clobbers; "
